@@ -969,7 +969,9 @@ impl Scenario for Listeners {
         // flood: listeners that are not read while 300 confirms and 300 returned messages arrive
         vec![json!({"drop_second": false}), json!({"drop_second": true}), json!({"flood": 300}), json!({"drop_second": false, "fine": true}), json!({"drop_second": true, "fine": true}),
             // events the server sends between the client's Connection.Close and its own CloseOk
-            json!({"late": true})]
+            json!({"late": true}),
+            // ... and between the client's Channel.Close and the server's Channel.CloseOk
+            json!({"late": true, "channel": true})]
     }
     fn bound(&self, tier: &str, p: &Value) -> usize {
         if p["flood"].is_u64() {
@@ -995,7 +997,7 @@ impl Scenario for Listeners {
             return flood_listeners(k as usize);
         }
         if p["late"] == true {
-            return late_listeners();
+            return late_listeners(p["channel"] == true);
         }
         let mut broker = StdBroker::new(Handshake::default());
         broker.pushes.push(Push::new("nack", vec![AMQPFrame::Method(1, AMQPClass::Basic(basic::AMQPMethod::Nack(basic::Nack { delivery_tag: 99, multiple: true, requeue: false })))]).when_channel(1, 2));
@@ -1291,16 +1293,21 @@ fn exception_batch(kind: &str) -> Built {
 /// (one push) while the confirm and return listeners are not read; then both are read.
 /// The server's answer to Connection.Close is [Ack, Nack, returned message, blocked notice,
 /// CloseOk]: what it sends ahead of its CloseOk still reaches the listeners.
-fn late_listeners() -> Built {
+fn late_listeners(channel: bool) -> Built {
     let mut broker = StdBroker::new(Handshake::default());
-    broker.close_behaviour = vh::sim::broker::CloseBehaviour::FramesThenCloseOk(vec![
+    let frames = vec![
         AMQPFrame::Method(1, AMQPClass::Basic(basic::AMQPMethod::Ack(basic::Ack { delivery_tag: 7, multiple: false }))),
         AMQPFrame::Method(1, AMQPClass::Basic(basic::AMQPMethod::Nack(basic::Nack { delivery_tag: 8, multiple: true, requeue: false }))),
         AMQPFrame::Method(1, AMQPClass::Basic(basic::AMQPMethod::Return(basic::Return { reply_code: 312, reply_text: "NO_ROUTE".into(), exchange: "x".into(), routing_key: "late".into() }))),
         header(1, 2, true),
         body(1, &[4, 2]),
         AMQPFrame::Method(0, AMQPClass::Connection(pconnection::AMQPMethod::Blocked(pconnection::Blocked { reason: "late".into() }))),
-    ]);
+    ];
+    if channel {
+        broker.before_channel_close_ok = frames;
+    } else {
+        broker.close_behaviour = vh::sim::broker::CloseBehaviour::FramesThenCloseOk(frames);
+    }
     let mut cfg = EnvConfig::default();
     cfg.deliver_cuts = true;
     Built {
@@ -1321,9 +1328,15 @@ fn late_listeners() -> Built {
             ch.enable_publisher_confirms().expect("confirm.select");
             ch.basic_publish("", Publish::new(&[1], "k")).expect("publish");
             let _ = ch.qos(0, 1, false);
-            ctx.forget(ch);
-            let r = conn.close();
-            ctx.log(format!("close -> {}", res(&r)));
+            let mut conn = Some(conn);
+            if channel {
+                let r = ch.close();
+                ctx.log(format!("close -> {}", res(&r)));
+            } else {
+                ctx.forget(ch);
+                let r = conn.take().unwrap().close();
+                ctx.log(format!("close -> {}", res(&r)));
+            }
             let got: Vec<String> = confirms
                 .try_iter()
                 .filter_map(|c| match c {
@@ -1336,6 +1349,9 @@ fn late_listeners() -> Built {
             ctx.log(format!("confirms {:?}", got));
             ctx.log(format!("returns {:?}", returns.try_iter().map(|r| (r.routing_key.clone(), r.content.clone())).collect::<Vec<_>>()));
             ctx.log(format!("blocked {:?}", blocked.try_iter().map(|n| format!("{:?}", n)).collect::<Vec<_>>()));
+            if let Some(c) = conn.take() {
+                let _ = c.close();
+            }
         }),
     }
 }
@@ -1437,6 +1453,8 @@ impl Scenario for Violations {
             // a server that keeps talking behind its CloseOk: whatever the I/O thread still acts
             // on in that state is a violation like any other
             .chain(["unopened-channel", "client-only-method", "heartbeat"].iter().map(|k| json!({"kind": "behind-close-ok", "what": k})))
+            // two violating frames right behind OpenOk, in the same transmission: the first decides
+            .chain(["early-540-530", "early-bogus-540"].iter().map(|k| json!({"kind": k})))
             // the exception's Close over a transport that takes it in pieces
             .chain(["content-on-channel0", "client-only-method", "unimplemented-class"].iter().map(|k| json!({"kind": k, "write_cuts": true})))
             .collect()
@@ -1460,7 +1478,15 @@ impl Scenario for Violations {
             return exception_batch(&kind);
         }
         let with_publisher = p["publisher"] == true;
-        let mut broker = StdBroker::new(Handshake::default());
+        let mut hs = Handshake::default();
+        let early = kind.starts_with("early-");
+        if early {
+            let open_ok = AMQPFrame::Method(0, AMQPClass::Connection(pconnection::AMQPMethod::OpenOk(pconnection::OpenOk { known_hosts: String::new() })));
+            let tx_select = AMQPFrame::Method(1, AMQPClass::Tx(tx::AMQPMethod::SelectOk(tx::SelectOk {})));
+            let fs = if kind == "early-540-530" { vec![open_ok, tx_select, header(0, 1, false)] } else { vec![open_ok, deliver(3, "nobody", 1), tx_select] };
+            hs.after_open = vh::sim::broker::Stage::Frames(fs, false);
+        }
+        let mut broker = StdBroker::new(hs);
         broker.strict_content = false;
         let last = chain(&mut broker, "valid", vec![deliver(1, "ctag-1-2", 50), header(1, 1, false), body(1, &[6])], None, Some((1, 2)));
         let behind = kind == "behind-close-ok";
@@ -1470,7 +1496,7 @@ impl Scenario for Violations {
                 k => violation_frames(k).0.remove(0),
             };
             broker.close_behaviour = vh::sim::broker::CloseBehaviour::CloseOkThen(vec![f]);
-        } else {
+        } else if !early {
             let (frames, _, _) = violation_frames(&kind);
             chain(&mut broker, "bad", frames, Some(&last), Some((1, 2)));
         }
@@ -1493,6 +1519,12 @@ impl Scenario for Violations {
                         return;
                     }
                 };
+                if early {
+                    // (the frames behind OpenOk are handled as soon as the connection exists)
+                    let r = conn.close();
+                    ctx.log(format!("close -> {}", res(&r)));
+                    return;
+                }
                 let ch = conn.open_channel(Some(1)).expect("ch1");
                 let publisher = if with_publisher {
                     let ch2 = conn.open_channel(Some(2)).expect("ch2");
@@ -1540,6 +1572,24 @@ impl Scenario for Violations {
             let ok = if acted { close.starts_with("close -> Err(") && close != "close -> Err(IoThreadPanic)" } else { close == "close -> Ok" };
             if !ok {
                 v.push(("violations:frame-behind-close-ok".into(), format!("{} behind CloseOk, taken by the I/O thread: {}; {}", p["what"], acted, close)));
+            }
+            return v;
+        }
+        if kind.starts_with("early-") {
+            let close = main.iter().find(|l| l.starts_with("close -> ")).cloned().unwrap_or_default();
+            let (want, code): (&str, Option<u16>) = if kind == "early-540-530" { ("close -> Err(ClientException)", Some(540)) } else { ("close -> Err(ReceivedFrameWithBogusChannelId(3))", None) };
+            // (an open that fails with the same cause is the other legitimate outcome: the frames were
+            // read together with OpenOk)
+            let open_failed = main.iter().any(|l| l.starts_with("open -> Err("));
+            if close != want && !open_failed {
+                v.push((format!("violations:first-violation-decides:{}", kind), format!("{}: {:?} expected {}", kind, main, want)));
+            }
+            if let (Some(code), true) = (code, close == want) {
+                let (envs, _) = wire_frames(o);
+                let ok = matches!(envs.last().and_then(|e| e.decode()), Some(AMQPFrame::Method(0, AMQPClass::Connection(pconnection::AMQPMethod::Close(c)))) if c.reply_code == code);
+                if !ok {
+                    v.push((format!("violations:first-violation-decides:{}", kind), format!("{}: the last frame written is not Connection.Close({})", kind, code)));
+                }
             }
             return v;
         }
